@@ -3717,6 +3717,63 @@ impl<K: Copy + Ord + Default, V: Clone + Default> MapTree<K, V> {
         }
     }
 
+
+    // SetTree::index_after: the /repo text (set/tree.rs:59-74) fails `self.node(parent_index)`: `parent_index < len` when the climb
+    // reaches the root (finding F4); below is the repaired shape, which verifies.
+    #[inline]
+    fn index_after_fixed(&self, mut index: u32) -> (r: u32)
+        requires
+            wf(self.store.buffer@, self.g@, self.root, self.store.unused@),
+            in_tree(self.store.buffer@, self.g@, index as int),
+        ensures
+            self.g@.ng[index as int].pos + 1 == self.g@.ord.len() ==> r == EMPTY_REF,
+            self.g@.ng[index as int].pos + 1 < self.g@.ord.len() ==> r == self.g@.ord[self.g@.ng[index as int].pos + 1],
+    {
+        let ghost i0 = index as int;
+        proof { lemma_links(self.store.buffer@, self.g@, self.root, index as int); reveal(sinv); assert(node_ok(self.store.buffer@, self.g@, self.root, index as int)); }
+        let node = self.node(index);
+        if node.right != EMPTY_REF {
+            let r = self.find_left_minimum(node.right);
+            proof { reveal(sinv); assert(node_ok(self.store.buffer@, self.g@, self.root, r as int)); assert(self.g@.ord[self.g@.ng[r as int].pos] == r); }
+            r
+        } else {
+            // find first parent where we not right
+            let mut parent_index = node.parent;
+            while parent_index != EMPTY_REF
+                invariant
+                    wf(self.store.buffer@, self.g@, self.root, self.store.unused@),
+                    in_tree(self.store.buffer@, self.g@, index as int),
+                    self.g@.ng[index as int].b == self.g@.ng[i0].pos + 1,
+                    parent_index == self.store.buffer@[index as int].parent,
+                ensures
+                    parent_index != EMPTY_REF ==> self.store.buffer@[parent_index as int].right != index,
+                decreases self.g@.ord.len() - range_len(self.g@, index as int),
+            {
+                proof {
+                    reveal(sinv);
+                    assert(node_ok(self.store.buffer@, self.g@, self.root, index as int));
+                    assert(node_ok(self.store.buffer@, self.g@, self.root, parent_index as int));
+                }
+                let parent = self.node(parent_index);
+                if parent.right != index {
+                    proof { assert(self.g@.ord[self.g@.ng[parent_index as int].pos] == parent_index); }
+                    break;
+                }
+                index = parent_index;
+                parent_index = parent.parent;
+            }
+            proof {
+                reveal(sinv);
+                assert(node_ok(self.store.buffer@, self.g@, self.root, index as int));
+                if parent_index != EMPTY_REF {
+                    assert(node_ok(self.store.buffer@, self.g@, self.root, parent_index as int));
+                    assert(self.g@.ord[self.g@.ng[parent_index as int].pos] == parent_index);
+                }
+            }
+            parent_index
+        }
+    }
+
     #[inline]
     fn replace_parents_child(&mut self, parent: u32, old_child: u32, new_child: u32)
         requires
